@@ -84,6 +84,8 @@ def s1_loop_table(ctx):
         ok = len(ws) == 1 and len(stats_args) >= 1 and len(set(stats_args)) == 1 and stats_args[0] is not None and stats_args[0][0] == 'dict' and \
             dict(stats_args[0][1]).get(('str', 'target_allocations')) == ws[0].value and ws[0].value == ('list', ())
         ok = ok or (len(ws) == 1 and ws[0].value[0] == 'sub' and ws[0].value[2] == ('str', 'target_allocations'))
+        # a statistics record object instead of a dict: the field of the very object handed to every rebalance call
+        ok = ok or (len(ws) == 1 and ws[0].value[0] == 'attr' and ws[0].value[2] == 'target_allocations' and len(set(stats_args)) == 1 and ws[0].value[1] == stats_args[0])
         ctx.require(ok, 'C14.S5', 'target_allocations is the list the rebalances recorded into', ws[0].site if ws else ctx.fn(RUN).site(), [fmt(w.value)[:80] for w in ws],
                     key='C14.S5|target-allocations')
 
@@ -248,7 +250,7 @@ def s5_outputs(ctx):
             ctx.violation('C14.S5', 'every construction call decides on recording by `stats is not None` alone', fn.site(),
                           'path [%s] returns without reaching the recording step' % cond_str(p)[:160], key='C14.S5|record-path')
             continue
-        apps = [e for e in p.flat_events() if e.kind == 'write' and e.how == 'mut:append' and e.loc == ('sub', V('stats'), ('str', 'target_allocations'))]
+        apps = [e for e in p.flat_events() if e.kind == 'write' and e.how == 'mut:append' and e.loc in (('sub', V('stats'), ('str', 'target_allocations')), ('attr', V('stats'), 'target_allocations'))]
         n += 1
         ctx.require(len(apps) == (1 if has else 0), 'C14.S5', 'one allocation record per construction call [%s]' % cond_str(p)[:80], apps[0].site if apps else fn.site(),
                     '%d records' % len(apps), key='C14.S5|one-record')
